@@ -67,6 +67,10 @@ func KVMetadataToProto(md *store.KVMetadata) *KVMetadata {
 }
 
 func TxFromProto(stx *Tx) *store.Tx {
+	if stx == nil || stx.Header == nil {
+		return nil
+	}
+
 	header := &store.TxHeader{}
 	header.ID = stx.Header.Id
 	header.Ts = stx.Header.Ts
@@ -81,6 +85,13 @@ func TxFromProto(stx *Tx) *store.Tx {
 	entries := make([]*store.TxEntry, len(stx.Entries))
 
 	header.NEntries = int(stx.Header.Nentries)
+	// the declared number of entries can not exceed the entries actually provided
+	if header.NEntries > len(entries) {
+		header.NEntries = len(entries)
+	}
+	if header.NEntries < 0 {
+		header.NEntries = 0
+	}
 	header.Eh = DigestFromProto(stx.Header.EH)
 
 	for i, e := range stx.Entries {
@@ -233,6 +244,10 @@ func DualProofV2FromProto(dproof *DualProofV2) *store.DualProofV2 {
 }
 
 func TxHeaderFromProto(hdr *TxHeader) *store.TxHeader {
+	if hdr == nil {
+		return nil
+	}
+
 	return &store.TxHeader{
 		ID:       hdr.Id,
 		PrevAlh:  DigestFromProto(hdr.PrevAlh),
@@ -262,6 +277,10 @@ func TxMetadataFromProto(md *TxMetadata) *store.TxMetadata {
 }
 
 func LinearProofFromProto(lproof *LinearProof) *store.LinearProof {
+	if lproof == nil {
+		return nil
+	}
+
 	return &store.LinearProof{
 		SourceTxID: lproof.SourceTxId,
 		TargetTxID: lproof.TargetTxId,
